@@ -9,19 +9,27 @@
 From KDB Require Import Util UtilProofs GenIdx GenIdxProofs SigDefs.
 
 (* ---------------------------------------------------------------------------------------------- *)
+(* an entry is marked toBeDisconnected only while m_disconnectedDuringEmit is set *)
+Definition no_stray_mark (m : impl) : Prop :=
+  forall k c, g_get (i_conns m) k = Some c -> c_tbd c = true -> i_dde m = true.
+
 Definition impl_ok (m : impl) : Prop :=
-  wf (i_conns m) /\ fresh_inv (g_alloc (i_conns m)) (i_issued m).
+  wf (i_conns m) /\ fresh_inv (g_alloc (i_conns m)) (i_issued m) /\ no_stray_mark m.
 
 Definition winv (w : world) : Prop := forall i m, get_impl w i = Some m -> impl_ok m.
 
 (* occupancy of a table: which positions hold a value, and of which generation *)
 Definition keys (g : garray conn) : list (option N) := map (option_map fst) (g_slots g).
 
-Definition issued_mono (m m' : impl) : Prop := exists l, i_issued m' = l ++ i_issued m.
+(* ids are only ever added to the history, and an id that went stale stays stale *)
+Definition issued_mono (m m' : impl) : Prop :=
+  (exists l, i_issued m' = l ++ i_issued m) /\
+  (forall k, stale (g_alloc (i_conns m)) k -> stale (g_alloc (i_conns m')) k).
 
 Definition impl_keeps (m m' : impl) : Prop :=
   i_emitting m' = i_emitting m /\
-  (i_emitting m = true -> keys (i_conns m') = keys (i_conns m) /\ g_alloc (i_conns m') = g_alloc (i_conns m)).
+  (i_emitting m = true -> keys (i_conns m') = keys (i_conns m) /\ g_alloc (i_conns m') = g_alloc (i_conns m)) /\
+  (i_emitting m = false -> i_dde m = false -> i_dde m' = false).
 
 Definition ev_keeps (s s' : evst) : Prop :=
   e_evaluating s' = e_evaluating s /\
@@ -32,21 +40,29 @@ Record wle_on (P Q : nat -> Prop) (w w' : world) : Prop := {
               exists m', get_impl w' i = Some m' /\ issued_mono m m' /\ (P i -> impl_keeps m m');
   wle_evs : forall e s, lookup (w_evs w) e = Some s ->
             exists s', lookup (w_evs w') e = Some s' /\ (Q e -> ev_keeps s s');
+  wle_new_impls : forall i m', get_impl w' i = Some m' -> get_impl w i = None -> P i ->
+                  i_emitting m' = false /\ i_dde m' = false;
+  wle_new_evs : forall e s', lookup (w_evs w') e = Some s' -> lookup (w_evs w) e = None -> Q e ->
+                e_evaluating s' = false;
   wle_trace : exists l, w_trace w' = l ++ w_trace w }.
 
 Definition all (_ : nat) : Prop := True.
 Definition wle := wle_on all all.
 
 Lemma issued_mono_refl m : issued_mono m m.
-Proof. exists []; reflexivity. Qed.
+Proof. split; [exists []; reflexivity|auto]. Qed.
 Lemma issued_mono_trans a b c : issued_mono a b -> issued_mono b c -> issued_mono a c.
-Proof. intros [l1 H1] [l2 H2]. exists (l2 ++ l1). rewrite H2, H1, app_assoc; reflexivity. Qed.
+Proof.
+  intros [[l1 H1] S1] [[l2 H2] S2]. split; [|auto].
+  exists (l2 ++ l1). rewrite H2, H1, app_assoc; reflexivity.
+Qed.
 Lemma impl_keeps_refl m : impl_keeps m m.
-Proof. split; auto. Qed.
+Proof. split; [|split]; auto. Qed.
 Lemma impl_keeps_trans a b c : impl_keeps a b -> impl_keeps b c -> impl_keeps a c.
 Proof.
-  intros [E1 S1] [E2 S2]. split; [congruence|]. intros Ha.
-  destruct (S1 Ha) as [K1 A1]. rewrite <- E1 in Ha. destruct (S2 Ha) as [K2 A2]. split; congruence.
+  intros (E1 & S1 & D1) (E2 & S2 & D2). split; [congruence|]. split.
+  - intros Ha. destruct (S1 Ha) as [K1 A1]. rewrite <- E1 in Ha. destruct (S2 Ha) as [K2 A2]. split; congruence.
+  - intros Ha Hd. apply D2; [congruence|]. apply D1; assumption.
 Qed.
 Lemma ev_keeps_refl s : ev_keeps s s.
 Proof. split; auto. intros _. split; auto. exists []. symmetry; apply app_nil_r. Qed.
@@ -62,28 +78,41 @@ Proof.
   constructor.
   - intros i m H; exists m; split; [assumption|]. split; [apply issued_mono_refl|intros _; apply impl_keeps_refl].
   - intros e s H; exists s; split; [assumption|intros _; apply ev_keeps_refl].
+  - intros i m' H1 H2; congruence.
+  - intros e s' H1 H2; congruence.
   - exists []; reflexivity.
 Qed.
 
 Lemma wle_on_trans (P Q : nat -> Prop) a b c : wle_on P Q a b -> wle_on P Q b c -> wle_on P Q a c.
 Proof.
-  intros [I1 E1 [l1 T1]] [I2 E2 [l2 T2]]. constructor.
+  intros [I1 E1 NI1 NE1 [l1 T1]] [I2 E2 NI2 NE2 [l2 T2]]. constructor.
   - intros i m H. destruct (I1 _ _ H) as (m' & H' & M1 & K1). destruct (I2 _ _ H') as (m'' & H'' & M2 & K2).
     exists m''; split; [assumption|]. split; [eapply issued_mono_trans; eassumption|].
     intros Hp. eapply impl_keeps_trans; eauto.
   - intros e s H. destruct (E1 _ _ H) as (s' & H' & K1). destruct (E2 _ _ H') as (s'' & H'' & K2).
     exists s''; split; [assumption|]. intros Hq. eapply ev_keeps_trans; eauto.
+  - intros i m'' Hc Ha Hp. destruct (get_impl b i) as [mb|] eqn:Hb.
+    + destruct (NI1 _ _ Hb Ha Hp) as [Eb Db]. destruct (I2 _ _ Hb) as (m2 & H2 & _ & K2).
+      rewrite Hc in H2; inversion H2; subst m2. destruct (K2 Hp) as (E & _ & D).
+      split; [congruence|]. apply D; assumption.
+    + eapply NI2; eassumption.
+  - intros e s'' Hc Ha Hq. destruct (lookup (w_evs b) e) as [sb|] eqn:Hb.
+    + pose proof (NE1 _ _ Hb Ha Hq) as Eb. destruct (E2 _ _ Hb) as (s2 & H2 & K2).
+      rewrite Hc in H2; inversion H2; subst s2. destruct (K2 Hq) as (E & _). congruence.
+    + eapply NE2; eassumption.
   - exists (l2 ++ l1). rewrite T2, T1, app_assoc; reflexivity.
 Qed.
 
 Lemma wle_on_weaken (P P' Q Q' : nat -> Prop) w w' :
   (forall i, P' i -> P i) -> (forall e, Q' e -> Q e) -> wle_on P Q w w' -> wle_on P' Q' w w'.
 Proof.
-  intros HP HQ [I E T]. constructor; [|  |assumption].
+  intros HP HQ [I E NI NE T]. constructor; [| | | |assumption].
   - intros i m H. destruct (I _ _ H) as (m' & H' & M & K). exists m'. split; [assumption|]. split; [assumption|].
     intros Hp. apply K. apply HP; assumption.
   - intros e s H. destruct (E _ _ H) as (s' & H' & K). exists s'; split; [assumption|].
     intros Hq. apply K. apply HQ; assumption.
+  - intros i m' H1 H2 Hp. eapply NI; eauto.
+  - intros e s' H1 H2 Hq. eapply NE; eauto.
 Qed.
 
 (* ---------------------------------------------------------------------------------------------- *)
@@ -120,16 +149,21 @@ Proof.
     + exists mj. rewrite get_put_other by assumption. split; [assumption|].
       split; [apply issued_mono_refl|intros _; apply impl_keeps_refl].
   - intros e s H; exists s; split; [assumption|intros _; apply ev_keeps_refl].
+  - intros j mj' Hj Hn Hp. destruct (Nat.eq_dec i j) as [<-|Hne]; [congruence|].
+    rewrite get_put_other in Hj by assumption. congruence.
+  - intros e s' H1 H2; cbn in H1; congruence.
   - exists []; reflexivity.
 Qed.
 
 Lemma wle_same_impls_evs (P Q : nat -> Prop) w w' :
   w_impls w' = w_impls w -> w_evs w' = w_evs w -> (exists l, w_trace w' = l ++ w_trace w) -> wle_on P Q w w'.
 Proof.
-  intros Hi He Ht. constructor; [| |assumption].
+  intros Hi He Ht. constructor; [| | | |assumption].
   - intros i m H. exists m. unfold get_impl in *. rewrite Hi. split; [assumption|].
     split; [apply issued_mono_refl|intros _; apply impl_keeps_refl].
   - intros e s H. exists s. rewrite He. split; [assumption|intros _; apply ev_keeps_refl].
+  - intros i m' H1 H2. unfold get_impl in *. rewrite Hi in H1. congruence.
+  - intros e s' H1 H2. rewrite He in H1. congruence.
 Qed.
 
 Lemma winv_same_impls w w' : w_impls w' = w_impls w -> winv w -> winv w'.
@@ -148,6 +182,9 @@ Proof.
     destruct (Nat.eqb_spec e0 e) as [->|Hne].
     + rewrite He in H0; inversion H0; subst s0. exists s'; auto.
     + exists s0; split; [assumption|intros _; apply ev_keeps_refl].
+  - intros i m' H1 H2. unfold get_impl in *; cbn in H1; congruence.
+  - intros e0 s0 H1 H2. cbn [w_evs set_evs] in H1. rewrite lookup_bind in H1.
+    destruct (Nat.eqb_spec e0 e) as [->|Hne]; congruence.
   - exists []; reflexivity.
 Qed.
 
@@ -176,46 +213,70 @@ Qed.
 
 Lemma impl_ok_erase m k : impl_ok m -> impl_ok (impl_with_conns m (g_erase (i_conns m) k)).
 Proof.
-  intros [Hwf Hfr]. split; cbn [i_conns i_issued impl_with_conns].
+  intros (Hwf & Hfr & Hmk). split; [|split]; cbn [i_conns i_issued impl_with_conns].
   - apply erase_spec; assumption.
   - rewrite alloc_erase by assumption. apply fresh_inv_deallocate; [apply Hwf|assumption].
+  - intros k' c Hg Ht. cbn [i_conns i_dde impl_with_conns] in *.
+    destruct (erase_spec _ k Hwf) as (_ & Hget & _). rewrite Hget in Hg.
+    destruct (gidx_eqb k k'); [discriminate|]. eapply Hmk; eassumption.
 Qed.
 
-Lemma impl_ok_update m k c : impl_ok m -> impl_ok (impl_with_conns m (g_update (i_conns m) k c)).
+(* overwrite an entry by one with the same mark (blocking), or by a marked one while setting the flag *)
+Lemma impl_ok_update_same m k c c0 :
+  impl_ok m -> g_get (i_conns m) k = Some c0 -> c_tbd c = c_tbd c0 ->
+  impl_ok (impl_with_conns m (g_update (i_conns m) k c)).
 Proof.
-  intros [Hwf Hfr]. destruct (update_spec _ k c Hwf) as (Hwf' & _ & _ & Ha & _).
-  split; cbn [i_conns i_issued impl_with_conns]; [assumption|]. rewrite Ha; assumption.
+  intros (Hwf & Hfr & Hmk) Hc0 Ht. destruct (update_spec _ k c Hwf) as (Hwf' & Hget & _ & Ha & _).
+  split; [|split]; cbn [i_conns i_issued impl_with_conns]; [assumption|rewrite Ha; assumption|].
+  intros k' c' Hg Hm'. cbn [i_conns i_dde impl_with_conns] in *. rewrite Hget in Hg.
+  destruct (gidx_eqb k k') eqn:E.
+  - rewrite Hc0 in Hg. inversion Hg; subst c'. eapply Hmk; [exact Hc0|congruence].
+  - eapply Hmk; eassumption.
 Qed.
 
-Lemma impl_ok_flags m a b : impl_ok m -> impl_ok (impl_with_flags m a b).
-Proof. intros H; exact H. Qed.
+Lemma impl_ok_mark m k c :
+  impl_ok m -> impl_ok (impl_with_flags (impl_with_conns m (g_update (i_conns m) k c)) true true).
+Proof.
+  intros (Hwf & Hfr & Hmk). destruct (update_spec _ k c Hwf) as (Hwf' & _ & _ & Ha & _).
+  split; [|split]; cbn [i_conns i_issued impl_with_conns impl_with_flags]; [assumption|rewrite Ha; assumption|].
+  intros k' c' _ _. reflexivity.
+Qed.
+
+Lemma impl_ok_emitting m b : impl_ok m -> impl_ok (impl_with_flags m b (i_dde m)).
+Proof. intros (Hwf & Hfr & Hmk). split; [|split]; assumption. Qed.
 Lemma impl_ok_owner m a b : impl_ok m -> impl_ok (impl_with_owner m a b).
 Proof. intros H; exact H. Qed.
 
 (* ---------------------------------------------------------------------------------------------- *)
 (* primitives of the model *)
 
-Lemma wle_upgrade_impl (Q : nat -> Prop) w w' i :
+Lemma wle_upgrade_impl (Q : nat -> Prop) w w' i m0 :
+  get_impl w i = Some m0 ->
   wle_on (fun j => j <> i) Q w w' ->
   (forall m m', get_impl w i = Some m -> get_impl w' i = Some m' -> impl_keeps m m') ->
   wle_on all Q w w'.
 Proof.
-  intros [I E T] Hi. constructor; [|assumption|assumption].
-  intros j m H. destruct (I _ _ H) as (m' & H' & M & K). exists m'; split; [assumption|]. split; [assumption|].
-  intros _. destruct (Nat.eq_dec j i) as [->|Hne]; [eapply Hi; eassumption|apply K; assumption].
+  intros H0 [I E NI NE T] Hi. constructor; [|assumption| |assumption|assumption].
+  - intros j m H. destruct (I _ _ H) as (m' & H' & M & K). exists m'; split; [assumption|]. split; [assumption|].
+    intros _. destruct (Nat.eq_dec j i) as [->|Hne]; [eapply Hi; eassumption|apply K; assumption].
+  - intros j m' H1 H2 _. destruct (Nat.eq_dec j i) as [->|Hne]; [congruence|]. eapply NI; eassumption.
 Qed.
 
-Lemma wle_upgrade_ev (P : nat -> Prop) w w' e :
+Lemma wle_upgrade_ev (P : nat -> Prop) w w' e s0 :
+  lookup (w_evs w) e = Some s0 ->
   wle_on P (fun j => j <> e) w w' ->
   (forall s s', lookup (w_evs w) e = Some s -> lookup (w_evs w') e = Some s' -> ev_keeps s s') ->
   wle_on P all w w'.
 Proof.
-  intros [I E T] He. constructor; [assumption| |assumption].
-  intros j s H. destruct (E _ _ H) as (s' & H' & K). exists s'; split; [assumption|].
-  intros _. destruct (Nat.eq_dec j e) as [->|Hne]; [eapply He; eassumption|apply K; assumption].
+  intros H0 [I E NI NE T] He. constructor; [assumption| |assumption| |assumption].
+  - intros j s H. destruct (E _ _ H) as (s' & H' & K). exists s'; split; [assumption|].
+    intros _. destruct (Nat.eq_dec j e) as [->|Hne]; [eapply He; eassumption|apply K; assumption].
+  - intros j s' H1 H2 _. destruct (Nat.eq_dec j e) as [->|Hne]; [congruence|]. eapply NE; eassumption.
 Qed.
 
-Ltac imono := exists []; reflexivity.
+Ltac imono :=
+  split; [exists []; reflexivity
+         |intros ? ?; cbn [i_conns impl_with_conns impl_with_flags impl_with_owner]; try assumption].
 
 Lemma ev_dequeue_ok w e h : winv w -> winv (ev_dequeue w e h) /\ wle w (ev_dequeue w e h).
 Proof.
@@ -241,10 +302,13 @@ Proof.
   destruct (g_get (i_conns m) k) as [c|] eqn:Hc.
   - destruct (i_emitting m) eqn:Hem.
     + split.
-      * apply winv_put; [assumption|]. apply impl_ok_flags, impl_ok_update. assumption.
-      * eapply wle_put; [eassumption|imono|]. intros _. split; cbn; [congruence|].
-        intros _. split; [apply keys_update; congruence|].
-        unfold g_update. rewrite Hc. reflexivity.
+      * apply winv_put; [assumption|]. apply impl_ok_mark. assumption.
+      * eapply wle_put; [eassumption|imono|].
+        { unfold g_update. rewrite Hc. assumption. }
+        intros _. split; [cbn; congruence|split].
+        -- intros _. cbn. split; [apply keys_update; congruence|].
+           unfold g_update. rewrite Hc. reflexivity.
+        -- intros He; congruence.
     + set (w1 := match c_kind c with
                  | KDeferred e => if ev_alive w e then ev_dequeue w e {| h_impl := Some i; h_id := Some k |} else w
                  | _ => w end).
@@ -258,13 +322,14 @@ Proof.
       destruct H1 as [Hw1 Hle1]. split.
       * apply winv_put; [auto|]. apply impl_ok_erase. assumption.
       * eapply wle_on_trans; [exact Hle1|].
-        eapply wle_put; [eassumption|imono|]. intros _. split; cbn; [reflexivity|].
-        rewrite Hem; discriminate.
-  - destruct Hok as [Hwf Hfr]. destruct (erase_spec _ k Hwf) as (_ & _ & _ & Hnoop & _).
+        eapply wle_put; [eassumption|imono|].
+        { rewrite alloc_erase by apply Hok. apply stale_deallocate; [apply Hok|assumption]. }
+        intros _. split; [reflexivity|split]; cbn; [rewrite Hem; discriminate|auto].
+  - pose proof Hok as (Hwf & Hfr & Hmk). destruct (erase_spec _ k Hwf) as (_ & _ & _ & Hnoop & _).
     rewrite (Hnoop Hc).
     assert (E : impl_with_conns m (i_conns m) = m) by (destruct m; reflexivity).
     rewrite E. split.
-    + apply winv_put; [assumption|]. split; assumption.
+    + apply winv_put; assumption.
     + eapply wle_put; [eassumption|imono|]. intros _. apply impl_keeps_refl.
 Qed.
 
@@ -298,7 +363,7 @@ Proof.
   intros Hw. unfold release_owner. destruct (get_impl w i) as [m|] eqn:Hm; [|split; [auto|apply wle_on_refl]].
   split.
   - apply winv_put; [assumption|]. apply impl_ok_owner. eapply Hw; eassumption.
-  - eapply wle_put; [eassumption|imono|]. intros _. split; cbn; auto.
+  - eapply wle_put; [eassumption|imono|]. intros _. split; [|split]; cbn; auto.
 Qed.
 
 Lemma sig_disconnect_all_ok w s : winv w -> winv (sig_disconnect_all w s) /\ wle w (sig_disconnect_all w s).
@@ -321,17 +386,82 @@ Proof.
   intros Hw. unfold impl_block. destruct (get_impl w i) as [m|] eqn:Hm; [|split; [auto|apply wle_on_refl]].
   destruct (g_get (i_conns m) k) as [c|] eqn:Hc; [|split; [auto|apply wle_on_refl]].
   cbn [fst]. split.
-  - apply winv_put; [assumption|]. apply impl_ok_update. eapply Hw; eassumption.
-  - eapply wle_put; [eassumption|imono|]. intros _. split; cbn; [reflexivity|].
+  - apply winv_put; [assumption|]. eapply impl_ok_update_same; [eapply Hw; eassumption|eassumption|reflexivity].
+  - eapply wle_put; [eassumption|imono|].
+    { unfold g_update. rewrite Hc. assumption. }
+    intros _. split; [reflexivity|split]; cbn; [|auto].
     intros _. split; [apply keys_update; congruence|]. unfold g_update. rewrite Hc. reflexivity.
 Qed.
 
-Lemma finish_emit_ok w i n :
-  winv w -> winv (finish_emit w i n) /\ wle_on (fun j => j <> i) all w (finish_emit w i n).
+Lemma impl_disconnect_nonemitting w i k m c :
+  get_impl w i = Some m -> i_emitting m = false -> g_get (i_conns m) k = Some c ->
+  get_impl (impl_disconnect w i k) i = Some (impl_with_conns m (g_erase (i_conns m) k)).
 Proof.
-  intros Hw. unfold finish_emit. destruct (get_impl w i) as [m|] eqn:Hm; [|split; [auto|apply wle_on_refl]].
-  set (w1 := put_impl w i (impl_with_flags m false false)).
-  assert (Hw1 : winv w1) by (apply winv_put; [assumption|apply impl_ok_flags; eapply Hw; eassumption]).
+  intros Hm Hem Hc. unfold impl_disconnect. rewrite Hm, Hc, Hem.
+  set (w1 := match c_kind c with
+             | KDeferred e => if ev_alive w e then ev_dequeue w e {| h_impl := Some i; h_id := Some k |} else w
+             | _ => w end).
+  assert (Hm1 : get_impl w1 i = Some m).
+  { unfold w1. destruct (c_kind c); try assumption. destruct (ev_alive w ev); [|assumption].
+    unfold ev_dequeue. destruct (lookup (w_evs w) ev) as [s|]; [|assumption].
+    destruct (negb (e_alive s)); [assumption|]. destruct (e_evaluating s); assumption. }
+  eapply get_put_same; eassumption.
+Qed.
+
+Definition unmarked_at (m : impl) (x : nat) : Prop :=
+  forall g c, nth_error (g_slots (i_conns m)) x = Some (Some (g, c)) -> c_tbd c = false.
+
+(* the sweep of finishEmit: on a non-emitting Impl every visited position ends up without a marked entry *)
+Lemma sweep_ok idxs : forall w i m, winv w -> get_impl w i = Some m -> i_emitting m = false ->
+  exists m', get_impl (disconnect_where c_tbd w i idxs) i = Some m' /\ i_emitting m' = false /\
+             i_dde m' = i_dde m /\ i_owned m' = i_owned m /\ g_size (i_conns m') = g_size (i_conns m) /\
+             (forall x, In x idxs -> unmarked_at m' x) /\
+             (forall x, unmarked_at m x -> unmarked_at m' x).
+Proof.
+  induction idxs as [|x r IH]; intros w i m Hw Hm Hem; cbn [disconnect_where].
+  - exists m. repeat split; auto. intros y [].
+  - rewrite Hm. pose proof (Hw _ _ Hm) as (Hwf & Hfr & Hmk).
+    destruct (g_indexAt (i_conns m) x) as [k|] eqn:Hix.
+    + destruct (indexAt_get _ _ _ Hwf Hix) as (Hkx & c & Hc). rewrite Hc.
+      destruct (c_tbd c) eqn:Ht.
+      * pose proof (impl_disconnect_nonemitting w i k m c Hm Hem Hc) as Hm1.
+        destruct (impl_disconnect_ok w i k Hw) as [Hw1 _].
+        destruct (erase_spec _ k Hwf) as (_ & _ & Hsz & _ & Hoth & Hat).
+        destruct (IH _ i _ Hw1 Hm1 Hem) as (m' & Hg & He & Hd & Ho & Hs & Hin & Hpres).
+        exists m'. split; [assumption|]. split; [assumption|]. split; [assumption|]. split; [assumption|].
+        split; [cbn [i_conns impl_with_conns] in Hs; congruence|].
+        assert (Hx1 : unmarked_at (impl_with_conns m (g_erase (i_conns m) k)) x).
+        { intros g c' Hs'. cbn [i_conns impl_with_conns] in Hs'. rewrite <- Hkx in Hs'.
+          rewrite Hat in Hs' by congruence. discriminate. }
+        split.
+        -- intros y [<-|Hy]; [apply Hpres; assumption|apply Hin; assumption].
+        -- intros y Hy. apply Hpres. intros g c' Hs'. cbn [i_conns impl_with_conns] in Hs'.
+           destruct (Nat.eq_dec y (gi_index k)) as [->|Hne].
+           ++ rewrite Hat in Hs' by congruence. discriminate.
+           ++ rewrite Hoth in Hs' by assumption. eapply Hy; eassumption.
+      * destruct (IH _ i _ Hw Hm Hem) as (m' & Hg & He & Hd & Ho & Hs & Hin & Hpres).
+        exists m'. repeat (split; [assumption|]). split; [|assumption].
+        intros y [<-|Hy]; [|apply Hin; assumption]. apply Hpres.
+        intros g c' Hs'. apply get_slot in Hc. rewrite Hkx in Hc. rewrite Hc in Hs'. inversion Hs'; subst; assumption.
+    + destruct (IH _ i _ Hw Hm Hem) as (m' & Hg & He & Hd & Ho & Hs & Hin & Hpres).
+      exists m'. repeat (split; [assumption|]). split; [|assumption].
+      intros y [<-|Hy]; [|apply Hin; assumption]. apply Hpres.
+      intros g c' Hs'.
+      assert (Hix' : g_indexAt (i_conns m) x = Some {| gi_index := x; gi_gen := g |}).
+      { apply (indexAt_slot _ _ _ Hwf). exists c'; cbn; auto. }
+      congruence.
+Qed.
+
+Lemma finish_emit_ok w i n :
+  winv w -> (forall m, get_impl w i = Some m -> g_size (i_conns m) <= n) ->
+  winv (finish_emit w i n) /\ wle_on (fun j => j <> i) all w (finish_emit w i n).
+Proof.
+  intros Hw Hn. unfold finish_emit. destruct (get_impl w i) as [m|] eqn:Hm; [|split; [auto|apply wle_on_refl]].
+  pose proof (Hw _ _ Hm) as Hok. specialize (Hn _ eq_refl).
+  set (m1 := impl_with_flags m false (i_dde m)).
+  set (w1 := put_impl w i m1).
+  assert (Hw1 : winv w1) by (apply winv_put; [assumption|apply impl_ok_emitting; assumption]).
+  assert (Hg1 : get_impl w1 i = Some m1) by (eapply get_put_same; eassumption).
   assert (L1 : wle_on (fun j => j <> i) all w w1).
   { eapply wle_put; [eassumption|imono|]. intros Hc; contradiction Hc; reflexivity. }
   set (w2 := if i_dde m then disconnect_where c_tbd w1 i (seq 0 n) else w1).
@@ -340,29 +470,39 @@ Proof.
   destruct H2 as [Hw2 L2].
   assert (L12 : wle_on (fun j => j <> i) all w w2).
   { eapply wle_on_trans; [exact L1|]. eapply wle_on_weaken; [| |exact L2]; unfold all; auto. }
-  destruct (get_impl w2 i) as [m2|] eqn:Hm2; [|split; assumption].
-  destruct (i_owned m2); [split; assumption|].
+  assert (H3 : exists m2, get_impl w2 i = Some m2 /\ forall k c, g_get (i_conns m2) k = Some c -> c_tbd c = false).
+  { unfold w2. destruct (i_dde m) eqn:Hd.
+    - destruct (sweep_ok (seq 0 n) w1 i m1 Hw1 Hg1 eq_refl) as (m2 & Hg2 & _ & _ & _ & Hs & Hin & _).
+      exists m2; split; [assumption|]. intros k c Hc.
+      apply get_slot in Hc. eapply (Hin (gi_index k)); [|exact Hc].
+      apply in_seq. split; [lia|]. cbn.
+      assert (gi_index k < g_size (i_conns m2)) by (unfold g_size; apply nth_error_Some; congruence).
+      cbn [i_conns m1 impl_with_flags] in Hs. lia.
+    - exists m1; split; [assumption|]. intros k c Hc.
+      destruct Hok as (_ & _ & Hmk). destruct (c_tbd c) eqn:Ht; [|reflexivity].
+      specialize (Hmk k c Hc Ht). congruence. }
+  destruct H3 as (m2 & Hg2 & Hclean). rewrite Hg2.
+  pose proof (Hw2 _ _ Hg2) as (Hwf2 & Hfr2 & _).
   split.
-  - apply winv_put; [assumption|]. apply impl_ok_owner. eapply Hw2; eassumption.
+  - apply winv_put; [assumption|]. split; [|split]; cbn; [assumption|assumption|].
+    intros k c Hc Ht. cbn in Hc. rewrite (Hclean _ _ Hc) in Ht. discriminate.
   - eapply wle_on_trans; [exact L12|]. eapply wle_put; [eassumption|imono|].
     intros Hc; contradiction Hc; reflexivity.
 Qed.
 
 Lemma finish_emit_flag w i n m :
   get_impl w i = Some m -> winv w ->
-  exists m', get_impl (finish_emit w i n) i = Some m' /\ i_emitting m' = false.
+  exists m', get_impl (finish_emit w i n) i = Some m' /\ i_emitting m' = false /\ i_dde m' = false.
 Proof.
   intros Hm Hw. unfold finish_emit. rewrite Hm.
-  set (w1 := put_impl w i (impl_with_flags m false false)).
-  assert (Hw1 : winv w1) by (apply winv_put; [assumption|apply impl_ok_flags; eapply Hw; eassumption]).
-  assert (Hg1 : get_impl w1 i = Some (impl_with_flags m false false)) by (eapply get_put_same; eassumption).
+  set (w1 := put_impl w i (impl_with_flags m false (i_dde m))).
+  assert (Hw1 : winv w1) by (apply winv_put; [assumption|apply impl_ok_emitting; eapply Hw; eassumption]).
+  assert (Hg1 : get_impl w1 i = Some (impl_with_flags m false (i_dde m))) by (eapply get_put_same; eassumption).
   set (w2 := if i_dde m then disconnect_where c_tbd w1 i (seq 0 n) else w1).
   assert (H2 : wle w1 w2).
   { unfold w2. destruct (i_dde m); [apply disconnect_where_ok; assumption|apply wle_on_refl]. }
   destruct (wle_impls _ _ _ _ H2 _ _ Hg1) as (m2 & Hg2 & _ & K). rewrite Hg2.
-  assert (He2 : i_emitting m2 = false) by (destruct (K I) as [E _]; rewrite E; reflexivity).
-  destruct (i_owned m2); [exists m2; auto|].
-  eexists; split; [eapply get_put_same; eassumption|]. cbn. assumption.
+  eexists; split; [eapply get_put_same; eassumption|]. cbn. auto.
 Qed.
 
 (* ---------------------------------------------------------------------------------------------- *)
@@ -420,24 +560,30 @@ Section Contract.
     destruct (lookup (w_sigs w) s) as [[i|]|]; [|apply okres_ok; assumption|apply okres_throw; assumption].
     destruct (get_impl w i) as [m|] eqn:Hm; [|apply okres_throw; assumption].
     destruct (i_emitting m) eqn:Hem; [apply okres_throw; assumption|].
-    set (w1 := put_impl w i (impl_with_flags m true (i_dde m))).
-    assert (Hw1 : winv w1) by (apply winv_put; [assumption|apply impl_ok_flags; eapply Hw; eassumption]).
+    set (m1 := impl_with_flags m true (i_dde m)).
+    set (w1 := put_impl w i m1).
+    assert (Hw1 : winv w1) by (apply winv_put; [assumption|apply impl_ok_emitting; eapply Hw; eassumption]).
     assert (L1 : wle_on (fun j => j <> i) all w w1).
     { eapply wle_put; [eassumption|imono|]. intros Hc; contradiction Hc; reflexivity. }
     pose proof (walk_ok i args (seq 0 (g_size (i_conns m))) w1 Hw1) as [Hw2 L2].
     destruct (walk R w1 i args (seq 0 (g_size (i_conns m)))) as [w2 e]. cbn [fst] in *.
-    destruct (finish_emit_ok w2 i (g_size (i_conns m)) Hw2) as [Hw3 L3].
+    assert (Hg1 : get_impl w1 i = Some m1) by (eapply get_put_same; eassumption).
+    destruct (wle_impls _ _ _ _ L2 _ _ Hg1) as (m2 & Hg2 & _ & K2).
+    assert (Hsz : forall mm, get_impl w2 i = Some mm -> g_size (i_conns mm) <= g_size (i_conns m)).
+    { intros mm Hmm. rewrite Hg2 in Hmm; inversion Hmm; subst mm.
+      destruct (K2 I) as (_ & Hk & _). destruct (Hk eq_refl) as [Hkeys _].
+      unfold keys in Hkeys. apply (f_equal (@length _)) in Hkeys. rewrite !map_length in Hkeys.
+      unfold g_size. cbn [i_conns m1 impl_with_flags] in Hkeys. lia. }
+    destruct (finish_emit_ok w2 i (g_size (i_conns m)) Hw2 Hsz) as [Hw3 L3].
     split; [assumption|]. cbn [fst].
     assert (L : wle_on (fun j => j <> i) all w (finish_emit w2 i (g_size (i_conns m)))).
     { eapply wle_on_trans; [exact L1|]. eapply wle_on_trans; [|exact L3].
       eapply wle_on_weaken; [| |exact L2]; unfold all; auto. }
-    eapply wle_upgrade_impl; [exact L|].
+    eapply wle_upgrade_impl; [exact Hm|exact L|].
     intros m0 m' H0 H'. rewrite Hm in H0; inversion H0; subst m0.
-    assert (Hg1 : get_impl w1 i = Some (impl_with_flags m true (i_dde m))) by (eapply get_put_same; eassumption).
-    destruct (wle_impls _ _ _ _ L2 _ _ Hg1) as (m2 & Hg2 & _ & _).
-    destruct (finish_emit_flag w2 i (g_size (i_conns m)) m2 Hg2 Hw2) as (m3 & Hg3 & He3).
+    destruct (finish_emit_flag w2 i (g_size (i_conns m)) m2 Hg2 Hw2) as (m3 & Hg3 & He3 & Hd3).
     rewrite Hg3 in H'; inversion H'; subst m'.
-    split; [congruence|]. rewrite Hem; discriminate.
+    split; [congruence|]. split; [rewrite Hem; discriminate|auto].
   Qed.
 
   Lemma pass_loop_ok e : forall fuel w pos, winv w -> okres w (pass_loop R fuel w e pos).
@@ -473,7 +619,7 @@ Section Contract.
     assert (L : wle_on all (fun j => j <> e) w (ev_finish w2 e)).
     { eapply wle_on_trans; [exact L1|]. eapply wle_on_trans; [|exact L3].
       eapply wle_on_weaken; [| |exact L2]; unfold all; auto. }
-    eapply wle_upgrade_ev; [exact L|].
+    eapply wle_upgrade_ev; [exact He|exact L|].
     intros s0 s' H0 H'. rewrite He in H0; inversion H0; subst s0.
     assert (Hg1 : lookup (w_evs w1) e = Some {| e_alive := true; e_queue := e_queue s; e_evaluating := true |})
       by (unfold w1; cbn [w_evs set_evs]; apply lookup_bind_same).
@@ -482,27 +628,31 @@ Section Contract.
     inversion H'; subst s'. split; cbn; [congruence|]. rewrite Hev; discriminate.
   Qed.
 
-  Lemma do_connect_ok w s h c : winv w -> okres w (do_connect w s h c).
+  Lemma do_connect_ok w s h c : winv w -> c_tbd c = false -> okres w (do_connect w s h c).
   Proof.
-    intros Hw. unfold do_connect, ensure_impl.
+    intros Hw Htbd. unfold do_connect, ensure_impl.
     destruct (lookup (w_sigs w) s) as [[i|]|] eqn:Hs; [| |apply okres_throw; assumption].
     - destruct (get_impl w i) as [m|] eqn:Hm; [|apply okres_throw; assumption].
       destruct (i_emitting m) eqn:Hem; [apply okres_throw; assumption|].
       destruct (N.ltb_spec (N.of_nat (length (i_issued m)) + 1) W) as [Hlt|Hge]; cbn [negb];
         [|apply okres_throw; assumption].
       destruct (g_insert (i_conns m) c) as [g k] eqn:Hins.
-      destruct (Hw _ _ Hm) as [Hwf Hfr].
-      destruct (insert_spec _ _ _ _ Hwf Hins) as (Hwf' & _ & _ & _ & _ & _ & _ & _ & Hal).
+      destruct (Hw _ _ Hm) as (Hwf & Hfr & Hmk).
+      destruct (insert_spec _ _ _ _ Hwf Hins) as (Hwf' & _ & _ & Hget & _ & _ & _ & _ & Hal).
       assert (Hal' : ga_allocate (g_alloc (i_conns m)) = (g_alloc g, k)).
       { unfold g_insert in Hins. destruct (ga_allocate (g_alloc (i_conns m))) as [al k0] eqn:E.
         inversion Hins; subst. reflexivity. }
       destruct (fresh_inv_allocate _ _ _ _ (proj1 Hwf) Hfr Hlt Hal') as [Hfr' _].
       unfold ok, okres; cbn [fst]. split.
-      + eapply winv_same_impls; [reflexivity|]. apply winv_put; [assumption|]. split; assumption.
+      + eapply winv_same_impls; [reflexivity|]. apply winv_put; [assumption|]. split; [|split]; [assumption|assumption|].
+        intros k' c' Hg Ht. cbn [impl_issue i_conns i_dde] in *. rewrite Hget in Hg.
+        destruct (gidx_eqb k k'); [inversion Hg; subst; congruence|eapply Hmk; eassumption].
       + apply wle_on_trans with (b := put_impl w i (impl_issue m g k));
           [|apply wle_same_impls_evs; [reflexivity|reflexivity|exists []; reflexivity]].
-        eapply wle_put; [eassumption|exists [k]; reflexivity|]. intros _. split; cbn; [reflexivity|].
-        rewrite Hem; discriminate.
+        eapply wle_put; [eassumption| |].
+        { split; [exists [k]; reflexivity|]. intros k0 Hst. cbn [impl_issue i_conns].
+          eapply stale_allocate; [apply Hwf|exact Hfr|exact Hlt|exact Hal'|exact Hst]. }
+        intros _. split; [reflexivity|split]; cbn; [rewrite Hem; discriminate|auto].
     - set (i := length (w_impls w)).
       set (w1 := set_impls w (w_impls w ++ [impl_new])).
       set (w1' := set_sigs w1 (bind_key (w_sigs w1) s (Some i))).
@@ -515,7 +665,8 @@ Section Contract.
         - rewrite nth_error_app1 in Hj by assumption. eapply Hw; eassumption.
         - rewrite nth_error_app2 in Hj by assumption.
           destruct (j - length (w_impls w)) as [|n]; cbn in Hj; [|destruct n; discriminate].
-          inversion Hj; subst mj. split; [apply wf_empty|apply fresh_inv_empty]. }
+          inversion Hj; subst mj. split; [apply wf_empty|split; [apply fresh_inv_empty|]].
+          intros k' c' Hgk. unfold g_get in Hgk; cbn in Hgk. destruct (gi_index k'); discriminate. }
       assert (L1 : wle w w1').
       { constructor.
         - intros j mj Hj. exists mj. split.
@@ -523,21 +674,32 @@ Section Contract.
             apply nth_error_Some; congruence.
           + split; [apply issued_mono_refl|intros _; apply impl_keeps_refl].
         - intros e se He. exists se; split; [assumption|intros _; apply ev_keeps_refl].
+        - intros j mj' Hj Hn _. unfold get_impl, w1', w1 in *; cbn in Hj.
+          assert (Hge : length (w_impls w) <= j) by (apply nth_error_None; assumption).
+          rewrite nth_error_app2 in Hj by assumption.
+          destruct (j - length (w_impls w)) as [|n]; cbn in Hj; [|destruct n; discriminate].
+          inversion Hj; subst; auto.
+        - intros e se' H1 H2. unfold w1', w1 in H1; cbn in H1. congruence.
         - exists []; reflexivity. }
       destruct (N.ltb_spec (N.of_nat 0 + 1) W) as [Hlt|Hge]; cbn [negb]; [|apply okres_throw; assumption].
       change (i_conns impl_new) with (@g_empty conn).
       destruct (g_insert g_empty c) as [g k] eqn:Hins.
-      destruct (insert_spec _ _ _ _ (@wf_empty conn) Hins) as (Hwf' & _).
+      destruct (insert_spec _ _ _ _ (@wf_empty conn) Hins) as (Hwf' & _ & _ & Hget & _).
       assert (Hal' : ga_allocate ga_empty = (g_alloc g, k)).
       { unfold g_insert in Hins. cbn [g_alloc g_empty] in Hins. destruct (ga_allocate ga_empty) as [al k0] eqn:E.
         inversion Hins; subst. reflexivity. }
       destruct (fresh_inv_allocate _ _ _ _ wf_alloc_empty fresh_inv_empty Hlt Hal') as [Hfr' _].
       unfold ok, okres; cbn [fst]. split.
-      + eapply winv_same_impls; [reflexivity|]. apply winv_put; [assumption|]. split; assumption.
+      + eapply winv_same_impls; [reflexivity|]. apply winv_put; [assumption|]. split; [|split]; [assumption|assumption|].
+        intros k' c' Hgk Ht. cbn [impl_issue i_conns i_dde] in *. rewrite Hget in Hgk.
+        destruct (gidx_eqb k k'); [inversion Hgk; subst; congruence|]. unfold g_get in Hgk; cbn in Hgk. destruct (gi_index k'); discriminate.
       + eapply wle_on_trans; [exact L1|].
         apply wle_on_trans with (b := put_impl w1' i (impl_issue impl_new g k));
           [|apply wle_same_impls_evs; [reflexivity|reflexivity|exists []; reflexivity]].
-        eapply wle_put; [eassumption|exists [k]; reflexivity|]. intros _. split; cbn; [reflexivity|discriminate].
+        eapply wle_put; [eassumption| |].
+        { split; [exists [k]; reflexivity|]. intros k0 Hst. cbn [impl_issue i_conns].
+          eapply stale_allocate; [apply wf_alloc_empty|apply fresh_inv_empty|exact Hlt|exact Hal'|exact Hst]. }
+        intros _. split; [reflexivity|split]; cbn; [discriminate|auto].
   Qed.
 End Contract.
 
@@ -573,13 +735,16 @@ Ltac okw_tac Hw :=
       end ].
 
 Lemma wle_set_evs_new (P Q : nat -> Prop) w e s' :
-  lookup (w_evs w) e = None -> wle_on P Q w (set_evs w (bind_key (w_evs w) e s')).
+  lookup (w_evs w) e = None -> e_evaluating s' = false -> wle_on P Q w (set_evs w (bind_key (w_evs w) e s')).
 Proof.
-  intros He. constructor.
+  intros He Hev. constructor.
   - intros i m H. exists m. split; [assumption|]. split; [apply issued_mono_refl|intros _; apply impl_keeps_refl].
   - intros e0 s0 H0. cbn [w_evs set_evs]. rewrite lookup_bind.
     destruct (Nat.eqb_spec e0 e) as [->|Hne]; [congruence|].
     exists s0; split; [assumption|intros _; apply ev_keeps_refl].
+  - intros i m' H1 H2. unfold get_impl in *; cbn in H1; congruence.
+  - intros e0 s0 H1 H2 _. cbn [w_evs set_evs] in H1. rewrite lookup_bind in H1.
+    destruct (Nat.eqb_spec e0 e); [inversion H1; subst; assumption|congruence].
   - exists []; reflexivity.
 Qed.
 
@@ -619,7 +784,7 @@ Section Step.
       try (apply with_handle_ok; [exact Hw|intros hd]);
       try (match goal with |- okres _ (with_handle _ _ _) => apply with_handle_ok; [exact Hw|intros hd2] end);
       brk;
-      try (apply do_connect_ok; assumption);
+      try (apply do_connect_ok; [assumption|reflexivity]);
       try (apply sig_emit_ok; assumption);
       try (apply eval_pass_ok; assumption);
       try (blk Hw);
@@ -634,7 +799,7 @@ Section Step.
     - (* OBlDrop *)
       destruct (checked_lock w h) as [[i k]|]; okw_tac Hw.
     - (* OEvNew *)
-      split; [same_impls|]. apply wle_set_evs_new; assumption.
+      split; [same_impls|]. apply wle_set_evs_new; [assumption|reflexivity].
     - (* OEvDrop *)
       split; [same_impls|]. eapply wle_set_evs; [eassumption|]. intros _.
       split; cbn; [congruence|]. intros Hc; congruence.
